@@ -149,6 +149,7 @@ def run(F, chk):
         else:
             ra.violation(key, ss.where(ins[0]), "a new backend stream is registered and a path returns without arming the writer: its request is never sent")
     chunk_size_rule(F, chk)
+    window_sign_rule(F, chk)
     # ---------------- R-C01-b -----------------------------------------------------
     rb = chk.rule("R-C01-b", "T8", "TLS scalar and vectored write paths agree", floor=5)
     sw, sv = F.body(FRT + "socket_write"), F.body(FRT + "socket_write_vectored")
@@ -343,3 +344,52 @@ def chunk_size_rule(F, chk):
                 r.ok(key, b.where(bi, si), "behind `size > 0` on the value rendered into the chunk header")
             else:
                 r.violation(key, b.where(bi, si), "a chunk header can be emitted without a `> 0` test on the size that is rendered into it: a zero-size chunk terminates the chunked body early (truncation)")
+
+
+def window_sign_rule(F, chk):
+    """R-C01-h: HTTP/2 send windows are signed: a SETTINGS_INITIAL_WINDOW_SIZE shrink drives a stream window below zero.
+    The code that resumes a stalled body (re-arm the writer when a WINDOW_UPDATE / SETTINGS change opens the window)
+    decides `was closed` by comparing the old window with zero; that test must be an ORDER test (<= 0 / > 0).  An
+    equality test (== 0 / != 0) treats a negative window as open, the writer is never re-armed and the buffered rest of
+    the body is never sent."""
+    r = chk.rule("R-C01-h", "T6", "send windows are compared with zero by order, never by equality", floor=3)
+    n_order = 0
+    for b in F.grep("|window"):
+        if not (b.path.startswith(MUX) or b.path.startswith("<" + MUX)) or b.derived or "::tests::" in b.path:
+            continue
+        for bi, si, st in b.stmts():
+            rv = st.get("rv")
+            if not (rv and rv["k"] == "bin" and rv["op"] in ("Eq", "Ne", "Lt", "Le", "Gt", "Ge")):
+                continue
+            sides = []
+            for o in (rv["a"], rv["b"]):
+                c = op_const(o)
+                if c is not None:
+                    sides.append(("const", c, o.get("ty", "")))
+                else:
+                    # the window VALUE itself (a chain of plain copies ending at a field named `window`), not a
+                    # quantity derived from it (gauge deltas, clamped copies)
+                    pl = op_place(o)
+                    for _ in range(6):
+                        if isinstance(pl, int):
+                            d = b.single_def(pl)
+                            if d and d[2] == "assign" and d[3]["k"] == "use" and op_place(d[3]["a"]) is not None:
+                                pl = op_place(d[3]["a"])
+                                continue
+                        break
+                    fs = proj_fields(pl) if isinstance(pl, dict) else []
+                    sides.append(("win" if fs and fs[-1][2] == "window" else "other", None, ""))
+            kinds = [x[0] for x in sides]
+            if "win" not in kinds or "const" not in kinds:
+                continue
+            cst = [x for x in sides if x[0] == "const"][0]
+            if cst[1] != 0 or not cst[2].startswith("i"):
+                continue
+            if rv["op"] in ("Eq", "Ne"):
+                r.fn(b.path)
+                r.violation("%s|window %s 0" % (b.path, rv["op"]), b.where(bi, si), "a signed send window is tested with `%s 0`: after a SETTINGS shrink the window is negative, this test takes it for open, the writer is not re-armed when the window re-opens and the rest of the body is never sent" % ("==" if rv["op"] == "Eq" else "!="))
+            else:
+                n_order += 1
+                r.fn(b.path)
+                r.ok("%s|window order test#%d" % (b.path, n_order), b.where(bi, si), "window %s 0" % rv["op"], nontrivial=False)
+    r.require(n_order >= 3, "only %d order comparisons of a send window with zero found (positive control)" % n_order)
